@@ -632,6 +632,10 @@ def run_history(sc: dict, wall_limit: float = 30.0) -> dict:
                     op.stop_flag.set()
                 elif kind == "cancel":
                     op.task.cancel()
+                elif kind == "cancel_yields":   # a cancellation `n` loop iterations after the call (n = 1: inside spawn_tasks' sleep(0))
+                    for _ in range(int(args[0]) if args else 1):
+                        await asyncio.sleep(0)
+                    op.task.cancel()
                 elif kind == "edit":
                     c.edit(kex, "ns", args[0], {"spec": {"x": args[1]}})
                 elif kind == "create":
